@@ -34,8 +34,8 @@ Unnamed == {
 
 Alphabet == UNION {Named(n) : n \in Names} \cup Unnamed
 
-Cfgs == { [lists |-> {"L"}, formname |-> "data", omitid |-> FALSE, iname |-> FALSE, entity |-> FALSE],
-          [lists |-> {"L", "M"}, formname |-> "a", omitid |-> TRUE, iname |-> FALSE, entity |-> FALSE] }
+Cfgs == { [lists |-> {"L"}, formname |-> "data", omitid |-> FALSE, iname |-> FALSE, entity |-> FALSE, entlabel |-> FALSE],
+          [lists |-> {"L", "M"}, formname |-> "a", omitid |-> TRUE, iname |-> FALSE, entity |-> FALSE, entlabel |-> FALSE] }
 
 MCInit == \E c \in Cfgs : RPInit(c)
 More == rowno - 2 < MaxRows
